@@ -26,6 +26,7 @@ RULE = (
     "histories over 3 keys + 2 advances are enumerated (quick: length<=4 for 16 configurations and <=5 for limit 2 without expiry, "
     "thorough: length<=6 for all 64); for limits 3 and 4 every call history over limit+1 unequal keys up to renaming (<=7 calls quick, <=8/9 thorough); non-trivial = history with a hit and an eviction or expiry; distinct = distinct configuration+history"
 )
+RULE += "; the function's result may be None for some keys"
 LEVEL_TEXT = (
     "Model-based history testing: every call's result is checked against predicates over the observed history (the tag "
     "of the returned object proves which invocation produced it), so wrong-key, stale, needlessly recomputed and "
@@ -107,6 +108,8 @@ def run_case(case) -> Outcome:
         state["inv"] += 1
         if state["raise_next"]:
             raise CacheErr(state["inv"])
+        if case.get("none_results") and type(x) is int:
+            return None  # a function whose RESULT is None for some keys (a lookup that found nothing): cached like any other
         state["serial"] += 1
         b = Box((recv_serial, x, y, state["inv"], state["now"]()), state["serial"])
         live.add(b)
@@ -272,6 +275,20 @@ def run_case(case) -> Outcome:
                         flags["hit"] = True
                     elif inv_no != state["inv"]:
                         out.violate("safety", f"C12.safety/{sig}/stale-despite-invocation", f"{ret.tag}")
+            elif err is None and case.get("none_results") and type(bound[0]) is int:
+                # the function's own result for this key is None: which invocation produced a cached None cannot be told
+                # from the object, so it is tracked through the history (time of the invocation that produced it)
+                box_serial = "none"
+                if invoked:
+                    box_time = now
+                else:
+                    flags["hit"] = True
+                    if j is None or hist[j][1] != "none":
+                        out.violate("safety", f"C12.safety/{sig}/foreign-value", "None although the function was never invoked for this key")
+                    else:
+                        box_time = hist[j][2]
+                        if exp is not None and now - box_time > exp:
+                            out.violate("safety", f"C12.safety/{sig}/expired-entry-served", f"age {now - box_time} > expiration {exp} (None result)")
             else:
                 if err is None:
                     out.violate("safety", f"C12.safety/{sig}/returned-None", "no value and no error")
@@ -375,6 +392,7 @@ def strategy(tier):
             "bare": draw(st.integers(0, 9)) == 0,
             "bystander": draw(st.integers(0, 3)) == 0,
             "in_scope": draw(st.integers(0, 3)) == 0,
+            "none_results": draw(st.integers(0, 3)) == 0,
             "ops": draw(st.lists(st.one_of(*ops), min_size=4, max_size=max_len)),
         }
 
